@@ -106,7 +106,7 @@ var registry = map[string]func(t *testing.T, c *Collector){
 		runConcScenarios(t, c, scs)
 	},
 	"C12": func(t *testing.T, c *Collector) {
-		c.res.Rule = "all interleavings (<= bound preemptions, <= n ticks of the fake clock) of rate-limited writers' back-pressure steps with the real flusher goroutine, the sync ticker and explicit Flush calls; oracle: when nothing is enabled any more, three further fair ticks must release every waiting writer (else stuck-writer), calls return without error and the history is linearizable; non-trivial = two threads alternated on the same lock or file"
+		c.res.Rule = "all interleavings (<= bound preemptions, <= n ticks of the fake clock) of rate-limited writers' back-pressure steps with the real flusher goroutine, the sync ticker and explicit Flush calls; oracle: channel statements are scheduling points too; when nothing is enabled any more (every flush that was asked for, and every tick of the scenario, has completed) no writer may still be waiting (else stuck-writer), calls return without error and the history is linearizable; non-trivial = two threads alternated on the same lock or file"
 		scs := c12Scenarios(c.job.Tier)
 		c.res.Bound = fmt.Sprintf("%d scenarios, preemption bound %d, %d ticks", len(scs), scs[0].Bound, scs[0].Ticks)
 		runConcScenarios(t, c, scs)
@@ -129,7 +129,7 @@ var registry = map[string]func(t *testing.T, c *Collector){
 			runCrashScenarios(c, c03Scenarios("C03", c.job.Tier))
 		}
 		c.count("nontrivial", c.res.Counters["torn_images"])
-		if !c.expired() {
+		if !c.expired() && os.Getenv("VERIF_ONLY") != "seq" {
 			engine := c.res.Engine
 			scs := c03ConcScenarios(c.job.Tier)
 			runConcScenarios(t, c, scs)
